@@ -122,7 +122,7 @@ def _satsolve_filein_fileout(F, cmd='minisat', verbose=0):
         raise RuntimeError("Error during SAT solver call: {}.\n".format(
             " ".join([cmd, cnf.name, sat.name])))
 
-    return (result, result and witness or None)
+    return (result, witness if result else None)
 
 
 def _satsolve_stdin_stdout(F, cmd='lingeling', verbose=0):
@@ -228,7 +228,7 @@ def _satsolve_stdin_stdout(F, cmd='lingeling', verbose=0):
 
     # Sort the the witness by variable id
     witness = sorted(witness, key=abs)
-    return (result, result and witness or None)
+    return (result, witness if result else None)
 
 
 def _satsolve_filein_stdout(F, cmd='sat4j', verbose=0):
@@ -322,7 +322,7 @@ def _satsolve_filein_stdout(F, cmd='sat4j', verbose=0):
 
     # Sort the the witness by variable id
     witness = sorted(witness,key=abs)
-    return (result, result and witness or None)
+    return (result, witness if result else None)
 
 
 # Solver uses different interfaces
